@@ -97,7 +97,7 @@ func alphaZero(t int) []sym {
 
 // paramDeltas lists (video kind, component) pairs: the writer's two parameter sets differ in that component only.
 func paramDeltas() [][2]string {
-	return [][2]string{{"h264", "pps"}, {"h264", "sps"}, {"h264", "notiming"}, {"h265", "vps"}, {"h265", "sps"}, {"h265", "pps"},
+	return [][2]string{{"h264", "pps"}, {"h264", "sps"}, {"h264", "notiming"}, {"h264", "constraint"}, {"h265", "vps"}, {"h265", "sps"}, {"h265", "pps"},
 		{"vp9", "width"}, {"vp9", "height"}, {"vp9", "profile"}, {"vp9", "bitdepth"}, {"vp9", "chroma"}, {"vp9", "range"}}
 }
 
@@ -306,6 +306,19 @@ func e1Scens(prop, tier string) []e1Scen {
 			}
 		}
 		out = append(out, e1Scen{Prop: prop, Cfg: cfg, Alpha: gop, Mode: "long", Len: 5 * len(gop), Name: "long-gop-many-audio-writes"})
+	}
+	if prop == "C05" || prop == "C01" {
+		// access units of 70 kB: a part (and a segment) takes several reads of the copy loop behind every response
+		for _, variant := range []string{"mpegts", "fmp4", "ll"} {
+			for _, disk := range []bool{false, true} {
+				cfg := mcfg(variant, disk, 3, "h264", "aac44")
+				if variant == "ll" {
+					cfg.SegCount = 7
+				}
+				word := []sym{{T: 0, D: "q", K: "R", Sz: 70000}, {T: 1, D: "c", N: 5}, {T: 0, D: "q", K: "n", Sz: 70000}, {T: 0, D: "q", K: "n", Sz: 33000}, {T: 1, D: "c", N: 5}, {T: 0, D: "q", K: "n", Sz: 70000}}
+				out = append(out, e1Scen{Prop: prop, Cfg: cfg, Alpha: word, Mode: "long", Len: 6 * 6, Name: "large-access-units"})
+			}
+		}
 	}
 	if prop == "C05" {
 		// what is listed stays fetchable after a Write that failed in the middle of a rotation (the next segment's file
